@@ -170,6 +170,50 @@ def escaping_instance_state(prog: Program, classes: List[ClassInfo]) -> List[Tup
     return out
 
 
+def dropped_coroutines(prog: Program, funcs) -> List[Tuple[str, ast.AST, str]]:
+    """[(function, call node, callee)]: an expression statement that calls a coroutine function of the package without awaiting it (and without
+    handing it to anything): the coroutine object is created and thrown away, the call never runs.  `self.authenticate()` for
+    `await self.authenticate()` is the typical slip - everything the call was meant to do silently does not happen."""
+    from .helpers import resolve_call, with_helpers
+    out, seen = [], set()
+    for f0 in funcs:
+        for f in with_helpers(prog, f0):
+            if f.qual in seen:
+                continue
+            seen.add(f.qual)
+            for n in ast.walk(f.node):
+                if isinstance(n, ast.Expr) and isinstance(n.value, ast.Call):
+                    t = resolve_call(prog, f, n.value)
+                    if t is not None and getattr(t, "is_async", False) and not any(isinstance(y, (ast.Yield, ast.YieldFrom)) for y in ast.walk(t.node)):
+                        out.append((f.qual, n, t.qual))
+    return out
+
+
+def dropped_exceptions(prog: Program, funcs) -> List[Tuple[str, ast.AST, str]]:
+    """[(function, statement, class)]: an expression statement that only constructs an exception (`ProtocolError("...")` where
+    `raise ProtocolError("...")` was meant): the guard it stands in rejects nothing."""
+    from .helpers import with_helpers
+    out, seen = [], set()
+    import builtins as _b
+    builtin = {n for n in dir(_b) if isinstance(getattr(_b, n), type) and issubclass(getattr(_b, n), BaseException)}
+    for f0 in funcs:
+        for f in with_helpers(prog, f0):
+            if f.qual in seen:
+                continue
+            seen.add(f.qual)
+            for n in ast.walk(f.node):
+                if isinstance(n, ast.Expr) and isinstance(n.value, ast.Call):
+                    r = prog.resolve_expr(f.module, n.value.func, f.cls)
+                    name = None
+                    if isinstance(r, ClassInfo) and any(prog.exc_is(r.qual, b) for b in ("Exception", "BaseException")):
+                        name = r.qual
+                    elif isinstance(n.value.func, ast.Name) and n.value.func.id in builtin and r is None:
+                        name = n.value.func.id
+                    if name:
+                        out.append((f.qual, n, name))
+    return out
+
+
 def held_buffer_mutations(prog: Program, fn) -> List[Tuple[str, str]]:
     """[(attribute, mutation as text)]: in-place stores / mutator calls in `fn` (helpers seen through) on a buffer that is - on some path -
     the object kept in an attribute of the receiver (self.x / cls.x), e.g. a cached header patched per call."""
